@@ -32,6 +32,13 @@ def check_grad(op, case, rec, f64_tol=1e-5, f32_tol=2e-3):
     if gconst:
         rec.tag("g_constant")
     rec.nontrivial(o.data.size >= 2 and not gconst and op.nt(args, shp))
+    if case.get("refused_first") and o.data.size >= 1:
+        # a backward call the library must refuse (upstream gradient of the wrong shape) comes first; the valid call
+        # that follows must be unaffected by the refused one
+        try:
+            o.backward(Tensor(np.ones(tuple(o.shape) + (2,), dtype=dt)))
+        except Exception:  # noqa: BLE001
+            rec.tag("refused_call_first")
     passes = 2 if case.get("twice") else 1
     first = None
     try:
@@ -47,8 +54,11 @@ def check_grad(op, case, rec, f64_tol=1e-5, f32_tol=2e-3):
         # metamorphic, independent of finite differences: the second call differentiates the same recorded function
         # with the same g, so it must ADD exactly what the first one left (to rounding of one addition)
         eps = 8 * float(np.finfo(dt).eps)
+        reused = bool(args.get("use")) and len(set(args["use"])) < len(args["use"])
         for i, t in enumerate(ts):
-            if first[i] is None or t.grad is None:
+            if first[i] is None or t.grad is None or reused:
+                # (an operand used twice by the op receives two pieces per call; (p1 + p2) + p1 + p2 is not 2(p1 + p2) in
+                #  floating point when the pieces cancel, as in x / x)
                 continue
             now = np.asarray(t.grad.data, dtype=np.float64)
             if now.shape != first[i].shape or np.any(np.abs(now - 2.0 * first[i]) > eps * np.maximum(np.abs(2.0 * first[i]), 1e-300) + 1e-300):
